@@ -24,7 +24,7 @@ RO1(k, v) == [k |-> "m", a |-> "", m |-> (k :> v), l |-> <<>>]
 RO2(k1, v1, k2, v2) == [k |-> "m", a |-> "", m |-> (k1 :> v1) @@ (k2 :> v2), l |-> <<>>]
 Pat(p) == [t |-> "pattern", p |-> p]
 Code(k) == [t |-> "code", kind |-> k]
-Leaves == { Pat(RO1("a", RS("v", "?x"))), Pat(RO2("a", RS("v", "?x"), "b", RS("v", "?y"))), Pat(RO1("c", RS("v", "?x"))),
+Leaves == { Pat(O1("a", Var("?x"))), Pat(O2("a", Var("?x"), "b", Var("?y"))), Pat(O1("c", Var("?x"))),
             Code("xeq1"), Code("obj"), Code("false"), [t |-> "empty"] }
 
 And(s) == [t |-> "and", qs |-> s]
